@@ -38,7 +38,7 @@ func Prepare(p *core.Program) {
 				ptypes = append(ptypes, sig.Params().At(i).Type().String())
 			}
 			switch {
-			case res.Len() == 1 && res.At(0).Type().String() == "[]*golang.org/x/net/html.Node" && sig.Params().Len() == 1 && isNode(sig.Params().At(0).Type()):
+			case res.Len() == 1 && res.At(0).Type().String() == "[]*golang.org/x/net/html.Node" && sig.Params().Len() >= 1 && isNode(sig.Params().At(0).Type()) && restBasic(sig, 1):
 				rs.directDescendants = f
 			case res.Len() == 2 && res.At(0).Type().String() == "int" && res.At(1).Type().String() == "int":
 				rs.rowsAndColumns = f
@@ -64,6 +64,16 @@ func Prepare(p *core.Program) {
 	p.SetRole(rs.hasOneOf, "hasOneOf")
 	p.SetRole(rs.hasValidText, "hasValidText")
 	p.SetRole(rs.visibleWithin, "visibleWithin")
+}
+
+// restBasic: the parameters from index k on are plain flags/numbers (precomputed facts passed along).
+func restBasic(sig *types.Signature, k int) bool {
+	for i := k; i < sig.Params().Len(); i++ {
+		if _, ok := sig.Params().At(i).Type().Underlying().(*types.Basic); !ok {
+			return false
+		}
+	}
+	return true
 }
 
 func roles(p *core.Program) *roleSet {
